@@ -411,6 +411,7 @@ struct Config
     int   hash{0};    // 0 identity 1 collide
     float lf{1.0f};   // max_load_factor
     int   ttl_ms{2};  // initial uniform ttl (utlru, ut_map, ut_set)
+    int64_t ttl_big_ms{0}; // != 0: used instead of ttl_ms (mass scripts; not serialised)
     int   tick_ms{2}; // lfuda tick
     float ratio{0.5f};
     int   valeq{0}; // value equality mode (g_val_eq_mode)
